@@ -45,3 +45,7 @@ package inproc
 //@   ensures isnil(result1) ==> closed(cast("*inproc", result0).readyq) && closed(cast("*inproc", result0).peer.readyq)
 //@   ensures isnil(result1) ==> cast("*inproc", result0).selfProto == d.selfProto && cast("*inproc", result0).peerProto == d.peerProto
 //@   ensures !isnil(result1) ==> isnil(result0)
+
+// ---- round 6: the listener an accepter is taken from is the one registered now ----
+//@ func (*dialer).Dial
+//@   before call:Unlock#3 assert has(listeners.byAddr, d.addr) && listeners.byAddr[d.addr] == l
